@@ -294,7 +294,30 @@ def parity_rule(ctx):
         if isinstance(nd, ast.Subscript) and isinstance(nd.ctx, ast.Load) and isinstance(nd.slice, ast.Slice) and \
                 isinstance(nd.value, ast.Name):
             counted.add(nd.value.id)
+    # the count delegated to a helper: an argument of a package function whose parameter is sliced there
+    for nd in ast.walk(loop):
+        if isinstance(nd, ast.Call) and isinstance(nd.func, ast.Name):
+            try:
+                callee = ctx.p.func(f"{fi.module}.{nd.func.id}")
+            except Exception:  # noqa
+                callee = None
+            if callee is None or callee.node is None:
+                continue
+            sliced = {x.value.id for x in ast.walk(callee.node) if isinstance(x, ast.Subscript) and
+                      isinstance(x.ctx, ast.Load) and isinstance(x.slice, ast.Slice) and isinstance(x.value, ast.Name)}
+            cparams = [a.arg for a in callee.node.args.args]
+            for k_, a_ in enumerate(nd.args):
+                if isinstance(a_, ast.Name) and k_ < len(cparams) and cparams[k_] in sliced:
+                    counted.add(a_.id)
+            for kw_ in nd.keywords:
+                if kw_.arg in sliced and isinstance(kw_.value, ast.Name):
+                    counted.add(kw_.value.id)
     params = {a.arg for a in node.args.args}
+    if not counted or not updated:
+        # no d[lo:hi] read / no in-place update recognisable in the loop: another way of writing the count; not judged
+        ctx.rep.note(f"pyscf_interface.parity: counted segment {sorted(counted)} / updated occupation {sorted(updated)} not "
+                     f"both recognisable in the loop; the running-occupation rule is not applied")
+        return
     ctx.ob("PAIR-1", "parity: the occupation segment counted for each move is the running occupation the loop updates",
            bool(updated) and counted == updated and len(updated) == 1,
            f"counted {sorted(counted)}, updated {sorted(updated)}", fi)
@@ -564,13 +587,18 @@ def producer_pairing(ctx):
     # get_fci_state: (coeff, alpha strings, beta strings) = zip(*large_ci(...)); det[s] filled from list s over nelec[s]
     gf = p.func(f"{PI}.get_fci_state")
     unpack = None
-    for nd in gf.node.body:
+    from ..model import norm as _norm
+    for nd in _norm(gf.node).body:
         if isinstance(nd, ast.Assign) and isinstance(nd.targets[0], ast.Tuple) and len(nd.targets[0].elts) == 3 and \
                 isinstance(nd.value, ast.Call) and dotted(nd.value.func) == "zip" and \
                 any(isinstance(x, ast.Attribute) and x.attr == "large_ci" for x in ast.walk(nd.value)):
             unpack = [e_.id if isinstance(e_, ast.Name) else None for e_ in nd.targets[0].elts]
-    ctx.ob("PAIR-1", "get_fci_state: large_ci tuples unpack as (coeff, alpha occupation, beta occupation)",
-           unpack is not None and None not in unpack and len(set(unpack)) == 3, f"{unpack}", gf)
+    if unpack is None:
+        ctx.rep.note("get_fci_state: the three-way unpacking of zip(*large_ci(...)) was not identified; the (coeff, alpha, beta) "
+                     "order rule does not apply")
+    else:
+        ctx.ob("PAIR-1", "get_fci_state: large_ci tuples unpack as (coeff, alpha occupation, beta occupation)",
+               None not in unpack and len(set(unpack)) == 3, f"{unpack}", gf)
     good = 0
     detail = []
     if unpack and None not in unpack:
@@ -598,12 +626,64 @@ def producer_pairing(ctx):
                good == len(detail) and len(detail) >= 2, f"(block, list, count) index triples {detail}", gf)
 
 
+def _inline_single_return_helpers(p, module: str, fnode, sizes):
+    """Calls of same-module functions whose body is one return statement (after the docstring) are replaced by that
+    expression with the arguments substituted; struct.calcsize('<c>') of a known one-character format becomes its size."""
+    import copy
+
+    class Sub(ast.NodeTransformer):
+        def __init__(self, env):
+            self.env = env
+
+        def visit_Name(self, node):
+            if isinstance(node.ctx, ast.Load) and node.id in self.env:
+                return copy.deepcopy(self.env[node.id])
+            return node
+
+    class Inl(ast.NodeTransformer):
+        def visit_Call(self, node):
+            self.generic_visit(node)
+            if isinstance(node.func, ast.Name):
+                try:
+                    callee = p.func(f"{module}.{node.func.id}")
+                except Exception:  # noqa
+                    callee = None
+                cn = getattr(callee, "node", None)
+                if cn is not None and isinstance(cn, ast.FunctionDef):
+                    body = [st for st in cn.body if not (isinstance(st, ast.Expr) and isinstance(st.value, ast.Constant))]
+                    prm = [a.arg for a in cn.args.args]
+                    if len(body) == 1 and isinstance(body[0], ast.Return) and body[0].value is not None and \
+                            not cn.args.vararg and not cn.args.kwarg and len(node.args) + len(node.keywords) == len(prm) \
+                            and not any(isinstance(a, ast.Starred) for a in node.args):
+                        env = dict(zip(prm, node.args))
+                        for kw_ in node.keywords:
+                            if kw_.arg in prm:
+                                env[kw_.arg] = kw_.value
+                        if len(env) == len(prm):
+                            new = Sub(env).visit(copy.deepcopy(body[0].value))
+                            for x_ in ast.walk(new):          # positions of the call site (file order of the reads)
+                                if hasattr(x_, "lineno"):
+                                    x_.lineno, x_.col_offset = node.lineno, node.col_offset
+                                    x_.end_lineno, x_.end_col_offset = node.end_lineno, node.end_col_offset
+                            return new
+            if (dotted(node.func) or "").endswith("struct.calcsize") and len(node.args) == 1 and \
+                    isinstance(node.args[0], ast.Constant) and node.args[0].value in sizes:
+                return ast.copy_location(ast.Constant(sizes[node.args[0].value]), node)
+            return node
+
+    out = Inl().visit(copy.deepcopy(fnode))
+    out = Inl().visit(out)          # calcsize of a substituted format
+    ast.fix_missing_locations(out)
+    return out
+
+
 def read_dets(ctx):
     p = ctx.p
     fi = p.func(f"{PI}.read_dets")
     from ..model import norm
     fnode = norm(fi.node)     # single-use temporaries substituted: f.read(4) may be named before it is unpacked
     sizes = {"i": 4, "d": 8, "c": 1, "q": 8, "f": 4}
+    fnode = _inline_single_return_helpers(p, fi.module, fnode, sizes)
     seq = []
     bad = []
     for nd in ast.walk(fnode):
@@ -619,6 +699,11 @@ def read_dets(ctx):
                 bad.append(f"format '{fmt}' read with {n_} bytes")
     seq.sort()
     fmts = [f for _, f, _ in seq]
+    if not seq:
+        # the file is not read through struct.unpack(<format>, f.read(<n>)) calls this rule can see (another reader,
+        # numpy.fromfile, a helper that is more than one return statement): layout not identified, nothing judged
+        ctx.rep.note("read_dets: no struct.unpack(format, f.read(n)) call identified; the record-layout rules (KEYS-2) do not apply")
+        return
     ctx.ob("KEYS-2", "read_dets: header and record layout int, int, {double, char...}", fmts == ["i", "i", "d", "c"]
            and not bad, f"formats in file order {fmts}" + (f"; {bad}" if bad else ""), fi)
     # header fields: the first int bounds the loop over determinants (default count), the second the loop over orbitals
